@@ -4,7 +4,8 @@ import vlib
 from gen import enc_value, enc_struct
 from props.c01 import lit
 
-ARRAYS = [[], [7], [1, 2, 3], ["a", 1, 1.5, True], ["x", "héllo", "日本", ""], [[1, 2], [3]], list(range(10, 22))]
+ARRAYS = [[], [7], [1, 2, 3], ["a", 1, 1.5, True], ["x", "héllo", "日本", ""], [[1, 2], [3]], list(range(10, 22)),
+          [True, "x", 3], [[1, 2], 3, "a", 2.5], [False, [0], "b", 7, True]]
 STRINGS = ["", "a", "abc", "héllo", "日本語", "a\nb", "  x  "]
 HASHES = [{}, {"a": 1}, {"a": 1, "b": "two", "c": 3.5}, {1: "int", "1": "str", 1.5: "flt"}, {2: "two", 10: "ten", "x": [1, 2]},
           {1.5: "a", 1.25: "b", 1.75: "c", 1: "one"}, {0.5: "half", 0.25: "quarter", 0: "zero", "0.5": "text"}, {-1.5: "m", -1.25: "n", 2.5: "p", 2.25: "q"},
@@ -55,7 +56,7 @@ class C16(Prop):
                 k = max(int(kk[1:].split(".")[0]) for kk in c.expect)
                 c.expect["o%d.trace" % k] = "+".join("74(i%d,%s)" % (i, enc_value(x)) for i, x in enumerate(a))
                 out.append(c)
-                for x in a[:3] + [99, "zz"]:
+                for x in a + [99, "zz"]:
                     if isinstance(x, list):
                         continue
                     present = any((type(y) == type(x)) and y == x for y in a)
